@@ -104,7 +104,10 @@ def make_app(problem):
                 y = y + jitter * dx * rs.uniform(-1, 1, size=len(x))
                 return x, y
             wx, wy = block(0.05, 0.45, 0.05, 0.6)
-            ox, oy = block(0.5, 0.8, 0.05, 0.35)
+            # the oil starts out of the water's kernel range (0.19 > 3h) and
+            # moves into it during the run: the (water, oil) neighbour lists
+            # are empty at first and fill up later
+            ox, oy = block(0.64, 0.89, 0.05, 0.35)
             bx, by = np.mgrid[-0.1:1.1 + 1e-9:dx, -0.1:0.9 + 1e-9:dx]
             bx, by = bx.ravel(), by.ravel()
             inside = (bx > 0.0 + 1e-9) & (bx < 1.0 - 1e-9) & (by > 1e-9)
@@ -116,7 +119,8 @@ def make_app(problem):
                 pas.append(get_particle_array(
                     name=nm, x=x, y=y, m=np.full_like(x, dx * dx * rho),
                     h=np.full_like(x, self.hdx * dx),
-                    rho=np.full_like(x, rho)))
+                    rho=np.full_like(x, rho),
+                    u=np.full_like(x, -8.0 if nm == 'oil' else 0.0)))
             self.scheme.setup_properties(pas)
             _uid(pas)
             _gids(self, pas)
